@@ -264,9 +264,9 @@ class DeepHeap(Harness):
     what_symbolic = ("limit prices of the resting orders (any heap-ordered, pairwise distinct assignment), price of the "
                      "sweeping order; depth, side, the disturbing operation and the sweep size are the case split")
     nontrivial_event = "the sweep filled at least two resting orders"
-    bounds = {"quick": "K = 8 resting limit orders on one side, heap-ordered distinct prices; one operation (one-lot round "
-                       "against the top, or cancel of the order at heap position i >= 1) then a limit sweep of 5 lots",
-              "thorough": "K in {8, 10, 12} (for 12: the round, and cancels at heap positions 1,3,4,5,6)"}
+    bounds = {"quick": "K in {7, 8} resting limit orders on one side, heap-ordered distinct prices; one operation (one-lot "
+                       "round against the top, or cancel of the order at heap position i >= 1) then a limit sweep of 5 lots",
+              "thorough": "K = 7..12 (for 11 and 12: the round, and cancels at heap positions 1,3,4,5,6)"}
     reach = ("nontrivial",)
     props = ("C02",)
     agreement_runs = 6
@@ -275,10 +275,12 @@ class DeepHeap(Harness):
 
     def cases(self, tier):
         out = []
-        for K in ((8,) if tier == "quick" else (8, 10, 12)):
+        # which slot the last heap entry moves into (and from which subtree) depends on the parity and size of the
+        # book, so consecutive depths are all needed
+        for K in ((7, 8) if tier == "quick" else (7, 8, 9, 10, 11, 12)):
             for is_buy in (True, False):
                 ops = ["R"] + [["C", i] for i in range(1, K)]
-                if K == 12:
+                if K >= 11:
                     ops = ["R"] + [["C", i] for i in (1, 3, 4, 5, 6)]      # inner heap positions
                 for op in ops:
                     out.append({"K": K, "is_buy": is_buy, "op": op, "sweep": 5})
